@@ -65,7 +65,7 @@ use std::path::{Path, PathBuf};
 WORLD_FNS = ["lock", "pop", "push", "create", "open", "remove_file", "metadata", "append", "sync", "sync_all", "copy", "read", "next", "sorted_fileids",
              "flush", "put", "delete", "get", "merge", "write", "new_active_datafile", "fileids_to_merge",
              "rebuild_storage", "populate_keydir_with_hintfile", "populate_keydir_with_datafile", "set", "del"]
-R_GHOST_ARG = make_ghost_arg_rule(WORLD_FNS, skip_after={"get": ["keydir"]}, only_after={"get": ["reader"], "pop": ["readers"], "push": ["readers"]})
+R_GHOST_ARG = make_ghost_arg_rule(WORLD_FNS, skip_after={"get": ["keydir"]}, only_after={"get": ["reader", "self"], "pop": ["readers"], "push": ["readers"]})
 
 
 def _dashmap_for(iter_text, pat):
@@ -114,7 +114,18 @@ R_STD_IO2 = make_seq_rule("R-std-io", "std::io::", "io::")
 R_VIS = make_seq_rule("R-vis", "pub fn sync", "fn sync")
 R_BREAK_VALUE = make_break_value_rule(["get"])
 R_INTERIOR_CLOSE = make_seq_rule("R-interior", "fn close(&self)", "fn close(&mut self)")
-STORE_RULES = (R_VIS, R_BREAK_VALUE, R_INTERIOR_CLOSE, R_GHOST_ARG, R_DASHMAP_ITER, R_FOR_COLLECT, R_ARC, R_ARC2, R_ARC3, R_INTERIOR_1, R_INTERIOR_2, R_INTERIOR_3,
+# the Handle's mutating operations lock the writer: `&self` is read as `&mut self` so that the Mutex shim can expose the protected
+# Writer as a view (old / final) and the map-level step contracts can be carried up to the Handle (C01.handle.*)
+R_INTERIOR_HPUT = make_seq_rule("R-interior", "fn put(&self", "fn put(&mut self")
+R_INTERIOR_HDEL = make_seq_rule("R-interior", "fn delete(&self", "fn delete(&mut self")
+R_INTERIOR_HMERGE = make_seq_rule("R-interior", "fn merge(&self", "fn merge(&mut self")
+R_INTERIOR_HSYNC = make_seq_rule("R-interior", "fn sync(&self", "fn sync(&mut self")
+R_INTERIOR_KVSET = make_seq_rule("R-interior", "fn set(&self", "fn set(&mut self")
+R_INTERIOR_KVDEL = make_seq_rule("R-interior", "fn del(&self", "fn del(&mut self")
+# the supertraits / bounds of the trait are about threads and error reporting, not about what the methods compute
+R_KV_BOUNDS = make_seq_rule("R-bounds", "KeyValueStorage: Clone + Send + 'static", "KeyValueStorage: KvView")
+R_KV_ERR_BOUND = make_seq_rule("R-bounds", "type Error: std::error::Error + Send + Sync;", "type Error;")
+STORE_RULES = (R_VIS, R_BREAK_VALUE, R_INTERIOR_CLOSE, R_INTERIOR_HPUT, R_INTERIOR_HDEL, R_INTERIOR_HMERGE, R_INTERIOR_HSYNC, R_INTERIOR_KVSET, R_INTERIOR_KVDEL, R_GHOST_ARG, R_DASHMAP_ITER, R_FOR_COLLECT, R_ARC, R_ARC2, R_ARC3, R_INTERIOR_1, R_INTERIOR_2, R_INTERIOR_3,
                R_INTERIOR_4, R_INTERIOR_5)
 
 BITCASK_ONLY = [
@@ -123,6 +134,7 @@ BITCASK_ONLY = [
     "impl Reader::fn get",
     "fn rebuild_storage", "fn populate_keydir_with_hintfile", "fn populate_keydir_with_datafile",
     "impl Writer::fn merge", "impl Context::fn fileids_to_merge",
+    "impl KeyValueStorage for Handle::type Error", "impl KeyValueStorage for Handle::fn set", "impl KeyValueStorage for Handle::fn get", "impl KeyValueStorage for Handle::fn del",
     "struct Handle", "impl Handle::fn put", "impl Handle::fn delete", "impl Handle::fn get", "impl Handle::fn merge", "impl Handle::fn sync", "impl Handle::fn close",
 ]
 
@@ -130,7 +142,7 @@ UNITS["store"] = {
     "name": "store",
     "derive_keep": ["Debug", "Default", "PartialEq", "Eq"],
     "header": STORE_HEADER,
-    "specs": ["log.spec", "utils.spec", "store.spec"],
+    "specs": ["log.spec", "utils.spec", "storage.spec", "store.spec"],
     "parts": [
         ("raw", "prelude/store_prelude.rs", "prelude"),
         ("raw", "lemmas/world_lemmas.rs", "lemma"),
@@ -139,6 +151,8 @@ UNITS["store"] = {
         ("repo", "src/storage/bitcask/log.rs", {"mod": "log", "stub_all": True, "rules": (R_GHOST_ARG,)}),
         ("repo", "src/storage/bitcask/utils.rs", {"mod": "utils", "stub_all": True, "rules": (R_GHOST_ARG, R_FILEIDS_TY),
                                                   "only": ["fn datafile_name", "fn hintfile_name", "fn sorted_fileids", "fn timestamp"]}),
+        ("repo", "src/storage.rs", {"mod": "kvtrait", "rules": (R_GHOST_ARG, R_INTERIOR_KVSET, R_INTERIOR_KVDEL, R_KV_ERR_BOUND), "header_rules": (R_KV_BOUNDS,),
+                                    "only": ["trait KeyValueStorage", "trait KeyValueStorage::type Error", "trait KeyValueStorage::fn set", "trait KeyValueStorage::fn get", "trait KeyValueStorage::fn del"]}),
         ("raw", "prelude/store_entry_views.rs", "prelude", {"mod": "bitcask"}),
         ("raw", "lemmas/store_lemmas.rs", "lemma", {"mod": "bitcask"}),
         ("raw", "lemmas/recover_lemmas.rs", "lemma", {"mod": "bitcask"}),
@@ -151,7 +165,8 @@ UNITS["store"] = {
     ],
     "mod_uses": {
         "log": "use super::utils;\nuse super::io::Write;",
-        "bitcask": "use super::log::{self, LogDir, LogIterator, LogStatistics, LogWriter, LogIndex, enc_len};\nuse super::utils::{self, datafile_name};\nuse super::config::*;\nuse super::io::BufWriter;",
+        "bitcask": "use super::log::{self, LogDir, LogIterator, LogStatistics, LogWriter, LogIndex, enc_len};\nuse super::utils::{self, datafile_name};\nuse super::config::*;\nuse super::io::BufWriter;\nuse super::kvtrait::KeyValueStorage;",
+        "kvtrait": "",
         "utils": "",
         "config": "",
     },
